@@ -7,7 +7,7 @@ Require Import WD.Base.Prelude WD.Base.BStr WD.Model.SubEvents WD.Model.Emitter 
 Require Import WD.Gen.MaskTableGen WD.Proofs.MaskTableProofs WD.Proofs.C11Proofs WD.Proofs.ReaderFixProofs
                WD.Proofs.ContractProofs
                WD.Proofs.C11KernelProofs WD.Proofs.C11ReaderProofs WD.Proofs.C11TwinProofs WD.Proofs.C11GroupProofs
-               WD.Proofs.C11SeqProofs.
+               WD.Proofs.C11SeqProofs WD.Proofs.C11InertProofs WD.Proofs.C11LagProofs.
 
 (* equal up to _moved_from_events *)
 Definition req (r r0 : rstate) : Prop := wfp r = wfp r0 /\ pfw r = pfw r0 /\ calls r = calls r0 /\ pend r = pend r0.
@@ -440,19 +440,77 @@ Section NR.
   Qed.
 End NR.
 
-(* ------------------------------------------------------------------ every filter, both kinds of watch *)
-(* For a recursive watch the unfiltered run has to be [regular] (see C11SeqProofs.regular_step); a non-recursive watch
-   always is. *)
-Theorem transparent_from_all F C full :
-  c_mask C = WATCHDOG_ALL -> c_root C <> [] -> last_is_sep (c_root C) = false ->
-  forall w ops evs, Forall op_ok ops ->
-    (c_recursive C = true -> regular_from F C full w ops) ->
+(* ------------------------------------------------------------------ the pinned reader is always regular *)
+Section Pinned.
+  Variable F : option (list evbase).
+  Variable C : cfg.
+  Hypothesis Hoff : c_fix_moveout C = false.
+
+  Lemma read_batch_pinned_queue t b : forall r k acc r' k' out,
+    read_batch C t (r, k, acc) b = Done (r', k', out) -> k_queue k' = k_queue k.
+  Proof.
+    induction b as [|e b IH]; intros r k acc r' k' out H; cbn [read_batch] in H.
+    - inversion H; subst. reflexivity.
+    - destruct (read_one C t (r, k, acc) e) as [[[r1 k1] a1]|] eqn:E1; [|discriminate].
+      rewrite (read_one_body_off C t r k acc e Hoff) in E1. apply read_one_body_queue in E1.
+      rewrite (IH _ _ _ _ _ _ H). exact E1.
+  Qed.
+
+  Lemma regular_pinned full ops : forall w k r, k_queue k = [] -> regular F C full w k r ops.
+  Proof.
+    induction ops as [|o ops IH]; intros w k r Q; cbn [regular]; [exact I|].
+    destruct (apply_op w o) as [w'|] eqn:Ea; [|apply IH; assumption].
+    split.
+    - split; [rewrite Q; constructor|]. split; [apply kernel_op_nodup; exact Q|].
+      unfold pending_of. rewrite Hoff. cbn [andb]. apply guarded_pinned. exact Hoff.
+    - unfold run_one. rewrite Ea.
+      destruct (read_batch C (w_fs w') (r, kdrained (kernel_op k (w_fs w) o), []) (k_queue (kernel_op k (w_fs w) o)))
+        as [[[r1 k1] raws]|] eqn:Hrd; [|exact I].
+      apply IH. rewrite (read_batch_pinned_queue _ _ _ _ _ _ _ _ Hrd). reflexivity.
+  Qed.
+
+  Lemma regular_from_pinned full w ops : regular_from F C full w ops.
+  Proof.
+    unfold regular_from. destruct (construct C kinit (w_fs w)) as [[r k]|] eqn:Ec; [|exact I].
+    apply regular_pinned. eapply construct_queue. exact Ec.
+  Qed.
+End Pinned.
+
+(* ------------------------------------------------------------------ masks that contain IN_MOVE: no regularity needed *)
+(* [regular_from] is gone: the repaired reader of a recursive watch is handled by the lag bisimulation (C11LagProofs),
+   the pinned reader and the non-recursive watches are regular by construction. *)
+Theorem transparent_from_vis F C full :
+  c_mask C = WATCHDOG_ALL -> visible F (c_recursive C) ->
+  forall w ops evs,
+    (c_recursive C = true -> c_fix_moveout C = true -> tidy_from C full w ops) ->
     run_from None C full w ops = Some evs ->
     run_from F (with_mask C (kmask F (c_recursive C))) full w ops = Some (filter (acc F) evs).
 Proof.
-  intros HM R1 R2 w ops evs Hops Hreg H.
+  intros HM Hvis w ops evs Htidy H.
   destruct (c_recursive C) eqn:Hrec.
-  - rewrite <- Hrec. apply transparent_from; [exact HM | rewrite Hrec; apply visible_recursive | exact (Hreg eq_refl) | exact H].
+  - destruct (c_fix_moveout C) eqn:Hfix.
+    + rewrite <- Hrec. apply (lag_from F C HM); [rewrite Hrec; exact Hvis | exact Hfix | exact (Htidy eq_refl eq_refl) | exact H].
+    + rewrite <- Hrec. apply transparent_from; [exact HM | rewrite Hrec; exact Hvis | apply regular_from_pinned; exact Hfix | exact H].
+  - rewrite <- Hrec. apply transparent_from; [exact HM | rewrite Hrec; exact Hvis | apply regular_from_nr; exact Hrec | exact H].
+Qed.
+
+(* ------------------------------------------------------------------ every filter, both kinds of watch *)
+(* For a recursive watch with the repaired reader the UNFILTERED run has to be tidy at its drained points (C11LagProofs:
+   the reader's tables mention live kernel watches only - a filter-independent, executable well-formedness condition; it
+   is what C02's cover invariant gives at synced states).  Nothing is asked of non-recursive watches or of the pinned
+   reader. *)
+Theorem transparent_from_all F C full :
+  c_mask C = WATCHDOG_ALL -> c_root C <> [] -> last_is_sep (c_root C) = false ->
+  forall w ops evs, Forall op_ok ops ->
+    (c_recursive C = true -> c_fix_moveout C = true -> tidy_from C full w ops) ->
+    run_from None C full w ops = Some evs ->
+    run_from F (with_mask C (kmask F (c_recursive C))) full w ops = Some (filter (acc F) evs).
+Proof.
+  intros HM R1 R2 w ops evs Hops Htidy H.
+  destruct (c_recursive C) eqn:Hrec.
+  - destruct (c_fix_moveout C) eqn:Hfix.
+    + rewrite <- Hrec. apply (lag_from F C HM); [rewrite Hrec; apply visible_recursive | exact Hfix | exact (Htidy eq_refl eq_refl) | exact H].
+    + rewrite <- Hrec. apply transparent_from; [exact HM | rewrite Hrec; apply visible_recursive | apply regular_from_pinned; exact Hfix | exact H].
   - destruct (flag_in IN_MOVED_FROM (kmask F false)) eqn:Hmv.
     + rewrite <- Hrec. apply transparent_from; [exact HM | | apply regular_from_nr; exact Hrec | exact H].
       rewrite Hrec. split; [exact Hmv | discriminate].
